@@ -6,6 +6,7 @@ pub mod deb822;
 pub mod edit;
 pub mod rel;
 pub mod relsat;
+pub mod reledit;
 
 #[derive(Serialize, Deserialize, Default, Debug, Clone)]
 pub struct Viol {
@@ -58,6 +59,7 @@ pub fn run_case(stage: &str, case: &Value, seed: u64) -> Outcome {
         "rel_docs" => rel::run_docs(case, seed),
         "rel_wrap" => rel::run_wrap(case, seed),
         "rel_sat" => relsat::run_sat(case, seed),
+        "rel_edit" => reledit::run_edge(case, seed),
         "rel_lossy_rt" => relsat::run_lossy_rt(case, seed),
         _ => panic!("unknown stage {}", stage),
     }
